@@ -28,7 +28,7 @@ BOUNDARY = (0, 1, 2, 3, 4, 9, 10, 24, 96, 97, 98, 99, 100, 128, 199, 254, 255)  
 
 
 def plan(tier, seed):
-    return [{"kind": "suite"}] + [{"n": N[tier]} for _ in range(16)] + [{"kind": "threads", "k": k} for k in range(3 if tier == "quick" else 16)]
+    return [{"kind": "suite"}] + [{"n": N[tier]} for _ in range(16)] + [{"kind": "threads", "k": k} for k in range(3 if tier == "quick" else 16)] + [{"n": N[tier] // 4, "python_flags": ["-bb"]}]
 
 
 def digest_twin_strings(ctx) -> None:
@@ -289,6 +289,22 @@ def run(shard, ctx):
     rng = ctx.rng(ID)
     patterns = list(itertools.product((False, True), repeat=4))
     for i in range(shard["n"]):
+        if i % 40 == 7 and not shard.get("python_flags"):
+            # the rest of the library is used in the same process: P1 telegrams that decode, and ones that fail half-way
+            from han import dlde
+
+            for text in (b"1-0:1.8.0(000123.456*kWh)\r\n0-0:96.1.1(4B384547303034303436333935353037)\r\n", b"1-0:32.7.0(2x1.4*V)\r\n", b"C.1.0(12345678)\r\nF.F(00)\r\n",
+                         b"0-0:1.0.0(99999999999W)\r\n", b"not-an-address(1)\r\n1-0:1.7.0(1e999*kW)\r\n"):
+                try:
+                    dlde.decode_p1_readout_content(text)
+                except Exception:
+                    pass
+            ctx.count("p1_decodes_in_between(process_history)", 5)
+        if i % 40 == 8:
+            # letter forms of value groups that other notations know (C = 96, F = 97, L = 98, P = 99): no digit-dot-digit, so not a code
+            for text in ("F.F", "C.1", "C-F:L.P", "L.1", "P.1", "1.F", "F.1*F", "C.F", "1-0:C.1", "c.1", "0xC.1", "1.e5", "1.-1", "٣.٤", "１.２", "1,8,0", "1 . 8 . 0"):
+                if obis_ref.must_raise(text):
+                    check_malformed(text, ctx)
         pa, pb, pe, pf = patterns[i % 16]
         groups = (gval(rng) if pa else None, gval(rng) if pb else None, gval(rng), gval(rng), gval(rng) if pe else None, gval(rng) if pf else None)
         text = obis_ref.reduced(groups)
